@@ -208,6 +208,8 @@ fn constructors(n: usize) -> Vec<(String, Result<Matrix, String>, Vec<f64>)> {
         dd[i * n + i] = dg[i];
     }
     v.push(("diagonal".into(), guarded(|| Matrix::diagonal(dg.clone())), dd));
+    // (a diagonal of ones has the identity's values but is a diagonal matrix: documented "ml=mu=0", writable on its diagonal)
+    v.push(("diagonal(ones)".into(), guarded(|| Matrix::diagonal(vec![1.0; n])), ident_dense(n)));
     v.push(("lower_triangular".into(), guarded(|| Matrix::lower_triangular(n)), z.clone()));
     v.push(("upper_triangular".into(), guarded(|| Matrix::upper_triangular(n)), z.clone()));
     // macro forms (fixed sizes)
@@ -499,6 +501,26 @@ impl Model for MatModel {
     }
 }
 
+/// the documented contract of `Matrix::diagonal`: ml = mu = 0 storage, writable on its diagonal
+fn diag_contract_of(label: &str, n: usize, m: &Matrix) -> Option<String> {
+    if !label.starts_with("diagonal") {
+        return None;
+    }
+    let st_ok = m.storage == MatrixStorage::Banded { ml: 0, mu: 0 };
+    let wr = guarded(|| {
+        let mut m2 = m.clone();
+        m2[(n - 1, n - 1)] = 7.5;
+        m2[(n - 1, n - 1)]
+    });
+    if !st_ok {
+        Some(format!("storage is {:?}, documented: ml = mu = 0", m.storage))
+    } else if wr != Ok(7.5) {
+        Some(format!("writing the last diagonal entry gives {:?}", wr))
+    } else {
+        None
+    }
+}
+
 /// histories that start from a non-initial state (see the call site)
 fn filled_then_written(rep: &mut Report, only: Option<&str>) {
     // histories that start from a non-initial state: a banded matrix whose every stored slot (also the unused
@@ -579,7 +601,7 @@ pub fn run(replay: Option<Value>) -> i32 {
                 if l == label {
                     let bad = match res {
                         Err(p) => Some(format!("panicked: {}", p)),
-                        Ok(m) => disagree(&m, &dense),
+                        Ok(m) => diag_contract_of(&l, n, &m).or_else(|| disagree(&m, &dense)),
                     };
                     return match bad {
                         Some(m) => {
@@ -636,7 +658,13 @@ pub fn run(replay: Option<Value>) -> i32 {
                 ),
                 Ok(m) => {
                     rep.validated += 1;
-                    if let Some(d) = disagree(&m, &dense) {
+                    let diag_contract = diag_contract_of(&label, n, &m);
+                    if let Some(d) = diag_contract {
+                        rep.violations.push(
+                            Violation::new(format!("ctor:{}:{}", n, label), "constructor", format!("constructor {} (n={}): {}", label, n, d), json!({"n": n, "constructor": label}))
+                                .with("constructor", label.split('(').next().unwrap()),
+                        );
+                    } else if let Some(d) = disagree(&m, &dense) {
                         rep.violations.push(
                             Violation::new(format!("ctor:{}:{}", n, label), "constructor", format!("constructor {} (n={}): {}", label, n, d), json!({"n": n, "constructor": label}))
                                 .with("constructor", label.split('(').next().unwrap()),
